@@ -97,7 +97,14 @@ def run_deriv(case):
     import warnings
     op = case['op']
     od = case['opds']
-    if op == 'div':
+    if case['deriv'] == 'rhs':
+        # x carries d_da = dx; the right operand is ANY spelling of a divisor: Python int/float/bool, NumPy scalar,
+        # 0-d array, array, Scalar (without derivatives)
+        x, y, dx = [K.build(o) for o in od]
+        x.insert_deriv('a', dx)
+        f = {'div': lambda: x / y, 'floordiv': lambda: x // y, 'mod': lambda: x % y, 'vdiv': lambda: x / y,
+             'element_div': lambda: x.element_div(y), 'mdiv': lambda: x / y}[op]
+    elif op == 'div':
         x, y, dx, dy = [K.build(o) for o in od]
         x.insert_deriv('a', dx); y.insert_deriv('b', dy)
         f = lambda: x / y
@@ -107,7 +114,7 @@ def run_deriv(case):
         f = {'reciprocal': lambda: x.reciprocal(), 'log': lambda: x.log(), 'sqrt': lambda: x.sqrt(),
              'arcsin': lambda: x.arcsin(), 'pow': lambda: x ** case['expo'], 'unit': lambda: x.unit(),
              'norm': lambda: x.norm(), 'exp': lambda: x.exp(check=True), 'arccos': lambda: x.arccos(),
-             'qrecip': lambda: x.reciprocal()}[op]
+             'qrecip': lambda: x.reciprocal(), 'inverse': lambda: x.inverse(), 'mrecip': lambda: x.reciprocal()}[op]
     with warnings.catch_warnings(record=True) as w, K.ambient(case.get('errstate')):
         warnings.simplefilter('always')
         try:
@@ -125,11 +132,11 @@ def impl(case):
         return ['warn', w[0]]
     op = case['op']
     if case.get('deriv'):
-        exact = op in ('div', 'reciprocal', 'qrecip') or (op == 'pow' and case.get('req') and case['req'][1] == 'recip_d')
+        exact = (op in ('div', 'reciprocal', 'qrecip') and case['deriv'] != 'rhs') or (case.get('req') and case['req'][1] == 'div_num_d') or (op == 'pow' and case.get('req') and case['req'][1] == 'recip_d')
         res = [obs(r, exact)]
-        for key in (['a', 'b'] if op == 'div' else ['a']):
+        for key in (['a', 'b'] if (op == 'div' and case['deriv'] != 'rhs') else ['a']):
             d = r._derivs_.get(key)
-            dexact = op in ('div', 'reciprocal', 'log') or (op == 'pow' and case.get('req') and case['req'][1] == 'recip_d')
+            dexact = (op in ('div', 'reciprocal', 'log') and case['deriv'] != 'rhs') or (case.get('req') and case['req'][1] == 'div_num_d') or (op == 'pow' and case.get('req') and case['req'][1] == 'recip_d')
             res.append(obs(d, dexact) if d is not None else 'no-deriv')
         return res
     if op == 'pow' and case['req'] is not None and case['req'][1] in ('pow0D', 'powArr'):
@@ -148,6 +155,12 @@ def request(case):
     W = [K.c02_opd(o) for o in opds]
     kinds = [KINDS[o['k']][0] for o in opds]
     par = case.get('params', {})
+    if any(o.get('scale') for o in opds):
+        return None                                        # scaled data: judged by the direct oracle only
+    if case.get('deriv') == 'rhs':
+        if op in ('div', 'vdiv') and kinds[1] == 'number' and op == 'div':
+            return ['c02', 'div_num_d', [int(opds[1]['v8'][0])], [W[0], K.c02_opd(case['opds'][2])]]
+        return None
     if case.get('deriv'):
         if op == 'div':
             return ['c02', 'div_d', [], W]
@@ -239,7 +252,7 @@ def base_case(case):
     if not case.get('deriv'):
         return case
     od = case['opds']
-    if case['op'] == 'div':
+    if case['deriv'] == 'rhs' or case['op'] == 'div':
         opds = od[:2]
     elif case['op'] == 'pow':
         opds = [od[0], {'k': 'N', 'shape': [], 'v8': [int(case['expo'] * 8)]}]
@@ -422,6 +435,52 @@ def gen_cases(rng, tier):
             for s in G.SHAPES1:
                 x, dx = G.rand_opd(rng, k, s), dop(k, s)
                 cases.append(mk({'op': op, 'opds': [x, dx], 'deriv': True}))
+    # 4b. every restricted-domain binary operation on a left operand that CARRIES DERIVATIVES, with every spelling of the
+    #     right operand: Python int / float / bool, NumPy float64 / int64 scalar, 0-d array, array, Scalar (zero included)
+    RHS = ['N', 'Ni', 'Nb', 'Nf64', 'Ni64', 'A', 'S', 'Si']
+    for _ in range(reps):
+        for op, kx in (('div', 'S'), ('mod', 'S'), ('floordiv', 'S'), ('vdiv', 'V3'), ('vdiv', 'P'), ('vdiv', 'Q'),
+                       ('mdiv', 'M2')):
+            for ky in RHS:
+                for sa, sb in G.SHAPE_PAIRS:
+                    if KINDS[ky][0] == 'number' and sb:
+                        continue
+                    if K.lead_bcast([sa, sb]) is None:
+                        continue
+                    if KINDS[ky][0] != 'number' and not thorough and rng.random() < 0.6:
+                        continue
+                    x, y = G.rand_opd(rng, kx, sa), G.rand_opd(rng, ky, sb, 'bool' if ky == 'Nb' else 'div')
+                    if KINDS[ky][0] == 'number' and rng.random() < 0.5:
+                        y['v8'] = [0]
+                    cases.append(mk({'op': op, 'opds': [x, y, dop(kx, sa)], 'deriv': 'rhs'}))
+        for sa, sb in G.SHAPE_PAIRS:
+            if K.lead_bcast([sa, sb]) is None:
+                continue
+            cases.append(mk({'op': 'element_div', 'opds': [G.rand_opd(rng, 'V3', sa), G.rand_opd(rng, 'V3', sb, 'div'),
+                                                          dop('V3', sa)], 'deriv': 'rhs'}))
+        for km in ('M2', 'M3'):
+            for s in G.SHAPES1:
+                for op in ('inverse', 'mrecip'):
+                    a = G.rand_opd(rng, km, s)
+                    if G.lapack_agrees(a):
+                        cases.append(mk({'op': op, 'opds': [a, dop(km, s)], 'deriv': True}))
+    # 4c. the matrix inverse in every spelling, also on tiny but perfectly conditioned matrices (entries scaled by exact
+    #     powers of two 2**-7 ... 2**-40): masked iff the determinant is EXACTLY zero or the operand is masked
+    for _ in range(reps * 2):
+        for km in ('M2', 'M3'):
+            for s in G.SHAPES1:
+                for op in ('inverse', 'mrecip', 'rdivm', 'mpowm1'):
+                    a = G.rand_opd(rng, km, s)
+                    a['scale'] = rng.choice([0, 7, 10, 14, 20, 27, 40])
+                    if G.lapack_agrees(a):
+                        cases.append(mk({'op': op, 'opds': [a]}))
+            for sa, sb in G.SHAPE_PAIRS:
+                if K.lead_bcast([sa, sb]) is None or (not thorough and rng.random() < 0.5):
+                    continue
+                a, b = G.rand_opd(rng, km, sa), G.rand_opd(rng, km, sb)
+                b['scale'] = rng.choice([0, 7, 14, 20, 40])
+                if G.lapack_agrees(b):
+                    cases.append(mk({'op': 'mmdiv', 'opds': [a, b]}))
     # 5. the caller's NumPy floating-point error state: a slice of the restricted-domain cases is repeated inside
     #    np.errstate(all='ignore' | 'warn' | 'raise') and after a global np.seterr(all='ignore'); the observation must be
     #    the one obtained under NumPy's default state (same model answer, same oracle)
